@@ -247,4 +247,18 @@ theorem primesNeeded_sound : ∀ (qs : List Nat) (bound acc k : Nat),
           obtain ⟨j, rfl⟩ : ∃ j, k' = j + 1 := ⟨k' - 1, by omega⟩
           simpa [List.take_succ_cons, Nat.mul_assoc] using this
 
+/-! ### centred masks do not wrap -/
+
+theorem abs_sum_le_of_abs_le (H : Int) (masks : List Int) (h : ∀ M ∈ masks, |M| ≤ H) :
+    |masks.sum| ≤ masks.length * H := by
+  induction masks with
+  | nil => simp
+  | cons M Ms ih =>
+    have h1 := h M (by simp)
+    have h2 := ih (fun x hx => h x (by simp [hx]))
+    simp only [List.sum_cons, List.length_cons]
+    calc |M + Ms.sum| ≤ |M| + |Ms.sum| := abs_add_le _ _
+      _ ≤ H + Ms.length * H := by linarith
+      _ = _ := by push_cast; ring
+
 end Lattigo.MP
